@@ -276,15 +276,19 @@ def check_varlist_width(ctx, rule='R-VARLISTWIDTH'):
                 where = 'src/PseudoNetCDF/%s %s' % (rp, q)
                 oid = '%s:%s' % (q, norm(st)[:40])
                 guarded = False
-                if nm is not None:
-                    child, p = st, getattr(st, '_parent', None)
-                    while p is not None and p is not fn:
-                        if isinstance(p, ast.If):
-                            op = _len_mod16(p.test, nm)
-                            inbody = any(child is b or child in list(ast.walk(b)) for b in p.body)
-                            if (op == '==' and not inbody) or (op == '!=' and inbody):
-                                guarded = True
-                        child, p = p, getattr(p, '_parent', None)
+                rtext = norm(recv)
+                child, p = c, getattr(c, '_parent', None)
+                while p is not None and p is not fn:
+                    if isinstance(p, ast.If) and child is not p.test:
+                        op = _len_mod16(p.test, rtext)
+                        inbody = any(child is b for b in p.body)
+                        if (op == '==' and not inbody) or (op == '!=' and inbody):
+                            guarded = True
+                    if isinstance(p, ast.IfExp) and child is not p.test:
+                        op = _len_mod16(p.test, rtext)
+                        if (op == '==' and child is p.orelse) or (op == '!=' and child is p.body):
+                            guarded = True
+                    child, p = p, getattr(p, '_parent', None)
                 if guarded:
                     ctx.ok(rule, oid, where, 'white-space split only when the length is not a multiple of 16')
                 else:
